@@ -47,8 +47,15 @@ class Run:
 
     # ------------------------------------------------------------------
     def ob(self, rule: str, func: str, key: str, ok: Optional[bool], what: str = "", detail: str = "",
-           witness: Any = None, loc: str = "", nontrivial: bool = True) -> Optional[bool]:
-        """Record one obligation. ok: True (holds) / False (violated, witness required) / None (undecided)."""
+           witness: Any = None, loc: str = "", nontrivial: bool = True, sound: bool = False) -> Optional[bool]:
+        """Record one obligation. ok: True (holds) / False (violated) / None (undecided).
+        A False verdict counts as a VIOLATION only when the caller vouches for it (sound=True): the mismatch was established
+        by a decision procedure that yields a positive witness (exact algebra over common constructs, a definite index / axis /
+        constant / comparator difference, a finite enumeration, the effect analysis).  A False that merely says "the construct
+        does not match the expected shape" is recorded as undecided - a shape the rule does not know is not a violation."""
+        if ok is False and not sound:
+            ok = None
+            detail = ("unconfirmed mismatch with the expected form (not a positive witness): " + (detail or "")).strip()
         self.rule_counts[rule] = self.rule_counts.get(rule, 0) + 1
         if func:
             self.functions.add(func)
